@@ -87,7 +87,7 @@ theorem GInv.unexempt_clean {w : World} {p : Pid} (hp : GInv (exAdd ex p) fr w) 
 
 /-- the frame of an exempt process can be set freely, as long as its guard awaitables fit -/
 theorem GInv.setFr_ex {w : World} {p : Pid} (hp : GInv (exAdd ex p) fr w) (x : Option Frame)
-    (hga : guardAw w p = [] ∨ ∃ g f, x = some f ∧ isGuardFrame f = true ∧ guardAw w p = [.guard g]) :
+    (hga : guardAw w p = [] ∨ ∃ g f, x = some f ∧ FrameOn w f g ∧ guardAw w p = [.guard g]) :
     GInv (exAdd ex p) (setFrame fr p x) w := by
   have hne : ∀ y, ¬ exAdd ex p y → setFrame fr p x y = fr y := fun y hy => setFrame_ne fr x (fun h => hy (Or.inr h))
   refine { hp with ga := ?_, gfb := ?_, gc := ?_, gkc := ?_, oth := ?_ }
@@ -356,7 +356,7 @@ theorem GInv.enqueueEx {w : World} {p : Pid} (hp : GInv (exAdd ex p) fr w) {g : 
 
 /-- … and gets the RESOURCE awaitable -/
 theorem GInv.addGuardAwaitEx {w : World} {p : Pid} (hp : GInv (exAdd ex p) fr w) (g : Nat) (f : Frame)
-    (hfr : fr p = some f) (hgf : isGuardFrame f = true) (haw : guardAw w p = []) (hlt : p < w.procs.size) :
+    (hfr : fr p = some f) (hgf : FrameOn w f g) (haw : guardAw w p = []) (hlt : p < w.procs.size) :
     GInv (exAdd ex p) fr (addAwait w p (.guard g)) := by
   have hpr : ∀ x, ((addAwait w p (.guard g)).proc x).awaits = if x = p then .guard g :: (w.proc x).awaits else (w.proc x).awaits := by
     intro x; unfold addAwait; rw [modProc_proc]
@@ -404,7 +404,7 @@ def enterGuard (gd : Guard) (q' : HH) (p : Pid) (d : Demand) : Guard :=
 /-- entering a guard wait and suspending: the caller (clean, existing, not exempt) is enqueued on `g`, awaits `g`, and its
     frame is the guard-wait frame `f`; for the guard of a condition `f` must be `cond_wait` -/
 theorem GInv.enterBlock {w : World} (hp : GInv ex fr w) {p : Pid} (g : Nat) (d : Demand) (f : Frame) (hx : ¬ ex p)
-    (hfr : fr p = none) (hlt : p < w.procs.size) (hgf : isGuardFrame f = true)
+    (hfr : fr p = none) (hlt : p < w.procs.size) (hgf : FrameOn w f g)
     (hcond : ∀ c : Nat, w.conds[c]? = some g → ∃ c', f = .condWait c') :
     GInv ex (setFrame fr p (some f)) (block (guardWaitEnter w g p d) p f).1 := by
   have hc := hp.clean_of_none hx hfr
